@@ -1,4 +1,5 @@
 import MqttVerif.Conn.Lemmas.FrameP6b
+import MqttVerif.Conn.Lemmas.Resend
 /-!
 # Topic-alias containers: lookup algebra and the `TAS` consistency invariant (C13 helpers)
 -/
@@ -787,6 +788,9 @@ theorem quiet_sendStored (c : C) : Quiet c (sendStored c) := by
         · exact ih (fun e' he' => hl e' (by simp [he'])) q hq
     exact this kept (fun e he => hs e (hsub.subset he)) q hq
 
+theorem quiet_resendStored (c : C) : Quiet c (resendStored c) :=
+  resendStored_ind (Q := fun x => Quiet c x) c (quiet_sendStored c) (fun h => h.trans (quiet_sendPostProcess _))
+
 theorem quiet_initConn (c : C) (b : Bool) : Quiet c (initConn c b) :=
   Quiet.of_reset (Or.inr (Or.inl (by simp [initConn]))) (fun e he => Or.inl (by simpa [initConn] using he))
     ⟨[], by simp [initConn], by simp⟩
@@ -949,9 +953,9 @@ theorem quiet_prV3Connack (c : C) (x : Except Nat Pkt) : Quiet c (prV3Connack c 
     | ok p =>
       let c0 : C := { c with s := { c.s with status := .connected } }
       have h0 : Quiet c c0 := Quiet.upd _ (Quiet.refl c) (Or.inl rfl) rfl
-      let c1 : C := if p.rc = some 0 then (if p.sp then sendStored c0 else clearStoreRelated c0) else c
+      let c1 : C := if p.rc = some 0 then (if p.sp then resendStored c0 else clearStoreRelated c0) else c
       have h1 : Quiet c c1 :=
-        Quiet.ite (Quiet.ite (Quiet.trans h0 (quiet_sendStored c0)) (Quiet.trans h0 (quiet_clearStoreRelated c0)))
+        Quiet.ite (Quiet.ite (Quiet.trans h0 (quiet_resendStored c0)) (Quiet.trans h0 (quiet_clearStoreRelated c0)))
           (Quiet.refl c)
       exact Quiet.trans h1 (quiet_push_other _ _ rfl)
 
@@ -966,9 +970,9 @@ theorem quiet_prV5Connack (c : C) (x : Except Nat Pkt) : Quiet c (prV5Connack c 
       have h0 : Quiet c c0 := Quiet.upd _ (Quiet.refl c) (Or.inl rfl) rfl
       let c1 := propsFold connackRecvProp c0 p.props
       have h1 : Quiet c c1 := Quiet.trans h0 (quiet_propsFold _ quiet_connackRecvProp _ _)
-      let c2 : C := if p.rc = some 0 then (if p.sp then sendStored c1 else clearStoreRelated c1) else c
+      let c2 : C := if p.rc = some 0 then (if p.sp then resendStored c1 else clearStoreRelated c1) else c
       have h2 : Quiet c c2 :=
-        Quiet.ite (Quiet.ite (Quiet.trans h1 (quiet_sendStored c1)) (Quiet.trans h1 (quiet_clearStoreRelated c1)))
+        Quiet.ite (Quiet.ite (Quiet.trans h1 (quiet_resendStored c1)) (Quiet.trans h1 (quiet_clearStoreRelated c1)))
           (Quiet.refl c)
       exact Quiet.trans h2 (quiet_push_other _ _ rfl)
 
